@@ -7,6 +7,8 @@ import LdkModel.Generated.SerPrims
 import LdkModel.Generated.Positional
 import LdkModel.Proofs.SerPrims
 import LdkModel.Proofs.ChanForget
+import LdkModel.Proofs.ChanSideVecs
+import LdkModel.Generated.ChanSideVecs
 /-!
   C12 — persisted objects survive serialization unchanged: the FRAMING theorems.
 
@@ -808,5 +810,46 @@ theorem annWf_preserved (c c' : Chan) (id : Nat) (h : AnnWf c) (hr : recv c (.ad
 example : FeeWf ⟨false, [], [], some (500, .remoteAnnounced), none, [], 0, 0⟩ ∧ ¬ FeeWf ⟨true, [], [], some (500, .remoteAnnounced), none, [], 0, 0⟩ := by decide
 
 end ChanForget
+
+/-! ## the per-HTLC optional vectors written as TLVs beside the positional HTLC lists (FundedChannel::write / ::read)
+
+  `Generated/ChanSideVecs.lean` (tools/gen_chan_sidevecs.py, re-extracted on every check): for each of the 12 vectors (preimages,
+  skimmed fees, blinding points, hold-htlc flags, accountable flags, attribution data of removed / holding-cell / fulfilled HTLCs) the
+  element kinds in whose writer arm `vec.push(..)` stands, and the element kinds for which the reader's re-attachment loop takes
+  `iter.next()`; plus which kinds are written at all and as which kind they come back (from the state bytes).  The pairing
+  "k-th entry <-> k-th element that carries one" is position-only: a push moved in front of the RemoteAnnounced `continue`, a reader
+  loop that walks every holding-cell entry instead of the AddHTLC ones, or a removal reason added on one side only shifts every later
+  value to the wrong HTLC.  `side_rows_consistent` is the decidable condition on the translated table; `side_vectors_reattach` is
+  the consequence for ALL lists. -/
+section ChanSideVecs
+open Ldk.ChanSideVecs Ldk.ChanSideVecs.Gen
+
+theorem side_rows_consistent : sideRows.all (rowConsistent readAs listKinds) = true := by decide +kernel
+
+theorem side_rows_exact : sideRows.map (fun r => (r.tlv, r.list, r.leftover)) =
+    [(15, "out", true), (35, "out", true), (37, "hold", true), (39, "out", true), (41, "hold", true), (55, "in", true), (57, "hold", true),
+     (61, "out", false), (67, "out", true), (69, "hold", true), (77, "hold", true), (79, "out", true)] := by decide +kernel
+
+theorem side_vectors_reattach (r : SideRow) (hr : r ∈ sideRows) (l : List Elem)
+    (hk : ∀ e ∈ l, e.1 ∈ kindsOfList listKinds r.list) :
+    roundTrip readAs r l = some ((written readAs r.list l).map fun e =>
+      (readKind readAs r.list e.1, if r.push.contains e.1 then e.2 else none)) := by
+  have hc : rowConsistent readAs listKinds r = true := List.all_eq_true.mp side_rows_consistent r hr
+  simp only [roundTrip]
+  refine reattachOpt_collect (fun k => r.push.contains k) (fun k => r.attach.contains k) (readKind readAs r.list) r.leftover
+    (written readAs r.list l) ?_
+  intro e he
+  have hw := List.mem_filter.mp he
+  have hall := List.all_eq_true.mp hc e.1 (hk e hw.1)
+  cases hro : readAsOf readAs r.list e.1 with
+  | none => simp [hro] at hw
+  | some k' => simp only [hro] at hall; simpa [readKind, hro] using hall
+example : roundTrip readAs ⟨55, "removed_htlc_attribution_data", "in", ["LocalRemoved:FailRelay", "LocalRemoved:Fulfill"], "x", ["LocalRemoved:FailRelay", "LocalRemoved:Fulfill"], true⟩
+    [("Committed", none), ("LocalRemoved:Fulfill", some 7), ("LocalRemoved:FailMalformed", none), ("LocalRemoved:FailRelay", none), ("LocalRemoved:Fulfill", some 9), ("RemoteAnnounced", some 1)]
+    = some [("Committed", none), ("LocalRemoved:Fulfill", some 7), ("LocalRemoved:FailMalformed", none), ("LocalRemoved:FailRelay", none), ("LocalRemoved:Fulfill", some 9)] := by decide +kernel
+-- a reader that also consumed an entry for FailMalformed removals would hand the second Fulfill's value to the wrong HTLC
+example : roundTrip readAs ⟨55, "v", "in", ["LocalRemoved:FailRelay", "LocalRemoved:Fulfill"], "x", ["LocalRemoved:FailRelay", "LocalRemoved:FailMalformed", "LocalRemoved:Fulfill"], true⟩
+    [("LocalRemoved:Fulfill", some 7), ("LocalRemoved:FailMalformed", none), ("LocalRemoved:Fulfill", some 9)] = none := by decide +kernel
+end ChanSideVecs
 
 end Ldk.C12
